@@ -398,6 +398,12 @@ func runC01Store(c C01Case, _ bool) qOutcome {
 	err := cmd2.Run()
 	_, merr := os.Stat(markPath)
 	crashed := merr == nil
+	if !crashed && err != nil && ctx.Err() != nil {
+		// the child did not finish its script inside the budget (saturated machine): nothing to judge
+		labels["inconclusive-time-budget"] = true
+		out.Skipped = "child exceeded its 60s budget"
+		return finish()
+	}
 	if !crashed && err != nil {
 		out.Failure = fail("HARNESS", "child", 0, "child ended with %v without reaching a crash point", err)
 		return finish()
@@ -620,7 +626,7 @@ func TestProp_C01_StoreCrash(t *testing.T) {
 	rapid.Check(t, func(rt *rapid.T) {
 		c := gen.Draw(rt, "case")
 		out := runC01Store(c, true)
-		verifkit.Emit(verifkit.Record{Prop: "C01", Test: "TestProp_C01_StoreCrash", Hash: verifkit.Hash(c), NonTrivial: out.NonTriv, Labels: out.Labels}, c)
+		verifkit.Emit(verifkit.Record{Prop: "C01", Test: "TestProp_C01_StoreCrash", Hash: verifkit.Hash(c), NonTrivial: out.NonTriv, Labels: out.Labels, Skipped: out.Skipped}, c)
 		if out.Failure != nil {
 			verifkit.SaveFailing("TestProp_C01_StoreCrash", c, out.Failure)
 			rt.Fatalf("%v", out.Failure)
